@@ -439,6 +439,9 @@ func (ex *Exec) ufResult(name string, t types.Type, args []*Term, st *State) Val
 	if s, ok := scalarSort(t); ok {
 		return ex.ts.App(name, s, args...)
 	}
+	if isString(t) {
+		return &StrV{T: ex.ts.App(name, IntSort, args...)}
+	}
 	switch u := t.Underlying().(type) {
 	case *types.Struct:
 		sv := &StructV{Fields: make([]Value, u.NumFields())}
